@@ -399,20 +399,52 @@ def check_c07(ctx):
                         "c": max(inst["cd"], 0) if t["cls"] == "HRevolve" else 0,
                         "v": best.get(idx, inst["claim"])})
         howner.append(None)
-    hpath = os.path.join(ctx.dir, "hier.json")
-    json.dump({"cfgs": hcfgs, "claims": hclaims}, open(hpath, "w"))
-    hr = tlc.run("HierTables", env={"CLAIMS_FILE": hpath, "OPT_NMAX": str(big_n)}, timeout=1800, workers=1)
-    ctx.add_run("HierTables", hr)
-    if tlc.invariant_violated(hr) or not hr["ok"]:
-        raise fw.Machinery(f"HierTables failed: {tlc.invariant_violated(hr)} {hr['error']}")
-    hm = tlc.marked(hr)
-    if not hm:
-        raise fw.Machinery("HierTables printed no verdict")
-    for x in hm[0][0]:
+    def hier_run(cfgs_, claims_, nmax_):
+        hpath = os.path.join(ctx.dir, "hier.json")
+        json.dump({"cfgs": cfgs_, "claims": claims_}, open(hpath, "w"))
+        hr = tlc.run("HierTables", env={"CLAIMS_FILE": hpath, "OPT_NMAX": str(nmax_)}, timeout=1800, workers=1)
+        ctx.add_run("HierTables", hr)
+        if tlc.invariant_violated(hr) or not hr["ok"]:
+            raise fw.Machinery(f"HierTables failed: {tlc.invariant_violated(hr)} {hr['error']}")
+        hm = tlc.marked(hr)
+        if not hm:
+            raise fw.Machinery("HierTables printed no verdict")
+        return hm[0][0]
+    bad_h = list(hier_run(hcfgs, hclaims, big_n))
+    # a thin layer of large step counts with expensive disks (few configurations, own table run)
+    gcfgs, gclaims, gowner = [], [], []
+    giants = [("DiskRevolve", 62, 1, 0, (1, 1, 50, 50)), ("DiskRevolve", 90, 2, 0, (1, 1, 50, 50)),
+              ("DiskRevolve", 75, 1, 0, (1, 1, 15, 15)), ("HRevolve", 62, 1, 2, (1, 1, 50, 50)),
+              ("HRevolve", 70, 2, 3, (1, 1, 15, 15)), ("HRevolve", 55, 1, 4, (2, 1, 9, 2)), ("Revolve", 90, 3, 0, (1, 1, 2, 2))]
+    if not q:
+        giants += [("DiskRevolve", 300, 1, 0, (1, 1, 500, 500)), ("DiskRevolve", 150, 2, 0, (1, 1, 120, 30)),
+                   ("HRevolve", 120, 2, 3, (1, 1, 50, 50))]
+    gtr = record.record_many([mkcfg(c, max_n=n, ram=cm, disk=(cd if c == "HRevolve" else -1), **boxes.cv(cv_))
+                              for c, n, cm, cd, cv_ in giants])
+    gver = fw.validate(ctx, gtr, tag="giants")
+    for t, v in zip(gtr, gver):
+        if t["ctor"] or not executable(v) or v["phase"] != "done":
+            skipped += 1
+            continue
+        p = t["p"]
+        key = (p["ram"], p["uf"], p["wd"], p["rd"])
+        if key not in [(c["cm"], c["uf"], c["wd"], c["rd"]) for c in gcfgs]:
+            gcfgs.append({"cm": p["ram"], "uf": p["uf"], "wd": p["wd"], "rd": p["rd"], "cmax": 6})
+        k = [(c["cm"], c["uf"], c["wd"], c["rd"]) for c in gcfgs].index(key) + 1
+        gclaims.append({"kind": kind_of[t["cls"]], "cfg": k, "n": p["max_n"], "c": max(p["disk"], 0),
+                        "v": p["uf"] * v["cnt"]["nF"] + p["wd"] * v["cnt"]["nDW"] + p["rd"] * v["cnt"]["nDR"]})
+        gowner.append(t)
+    if gclaims:
+        off = len(hclaims)
+        for x in hier_run(gcfgs, gclaims, max(c["n"] for c in gclaims)):
+            bad_h.append(off + x)
+        hclaims += gclaims
+        howner += gowner
+    for x in bad_h:
         cl, t = hclaims[x - 1], howner[x - 1]
         if t is None:
-            raise fw.Machinery(f"HierTables disagrees with the exhaustive optimum at {cl} "
-                               f"({hcfgs[cl['cfg'] - 1]}): the transcription of the recurrence is wrong")
+            raise fw.Machinery(f"HierTables disagrees with the exhaustive optimum at {cl}: "
+                               "the transcription of the recurrence is wrong")
         viols.append({"property": "C07", "clause": "C07.recurrence", "cls": t["cls"], "p": t["p"], "N": t["N"],
                       "what": f"{fw.describe(t)}: cost {cl['v']} (without ub*n) differs from the published "
                               f"recurrence",
